@@ -221,8 +221,15 @@ cmp_ev(const void *a, const void *b)
 		return -1;
 	if (clock1 > clock2)
 		return +1;
-	else
-		return 0;
+
+	/* qsort() is not guaranteed to be stable: keep the events with the
+	 * same clock in the order they have in the stream */
+	if (ev1 < ev2)
+		return -1;
+	if (ev1 > ev2)
+		return +1;
+
+	return 0;
 }
 
 static void
